@@ -212,6 +212,11 @@ def triggers_of(program: dict, facts: dict[str, dict]) -> dict[str, list[str]]:
                     if has_aggwin:
                         hit("D50", sid)
                         break
+        if op == "export":
+            from .campaign import ancestors as _anc65
+            by65 = {x["id"]: x for x in program["stmts"]}
+            if any(by65[a]["op"] == "alias" for a in _anc65(program, st["src"]) if a in by65):
+                hit("D65", sid)
         if op in ("export", "slice_head"):
             # D64: an arrange below an alias, none above it
             from .campaign import ancestors as _anc64
